@@ -68,7 +68,7 @@ theorem encEv_other {nS nM : Nat} {e e1 : Enc} {ty arg : Nat} (hge : ty ≥ mds_
     encEv nS nM e ⟨ty, arg⟩ = .ok { e1 with lastType := ty } := by
   have a1 : ¬ (ty = mds_REST ∧ arg ≠ 0) := by simp [mds_REST, mds_SLR] at *; omega
   have a2 : ¬ (ty < mds_SLR ∧ arg ≠ 0) := by omega
-  have a3 : ty < mds_REST ∨ ty ≥ mds_SLR ∨ arg ≠ 0 := by omega
+  have a3 : (ty < mds_REST ∧ ty ≠ mds_CARRY) ∨ ty ≥ mds_SLR ∨ arg ≠ 0 := by omega
   simp only [encEv, hne, a1, a2, if_false, h, a3, if_true]
 
 theorem encOther_slr (nS nM : Nat) (e : Enc) (arg : Nat) :
@@ -179,7 +179,7 @@ theorem encEv_lin (M : Mode) (nS nM : Nat) (e : Enc) (ev : MEv) (hv : linEv ev =
     rw [hev]
     have a1 : ¬ (ty = mds_REST ∧ arg ≠ 0) := by simp [mds_REST, mds_TIE] at *; omega
     have a2 : arg ≠ 0 := by omega
-    have a3 : ty < mds_REST ∨ ty ≥ mds_SLR ∨ arg ≠ 0 := by omega
+    have a3 : (ty < mds_REST ∧ ty ≠ mds_CARRY) ∨ ty ≥ mds_SLR ∨ arg ≠ 0 := by omega
     have henc : encEv nS nM e ⟨ty, arg⟩ = .ok { encNote e ty arg with lastType := ty } := by
       have a0 : ¬ ty = mds_REST := by simp [mds_REST, mds_TIE] at *; omega
       have a9 : ¬ ty = mds_LPB := by simp [mds_LPB, mds_SLR] at *; omega
